@@ -327,6 +327,33 @@ func H_jsStruct(t int, es6 bool) {
 			}
 		}
 		verifAssert(depth == 0 && par == 0 && brk == 0, "unbalanced brackets in generated JavaScript")
+		// an else continues an if statement: outside literals and comments the last token before it
+		// is the closing brace of the preceding branch
+		for i := 0; i+4 <= len(out); i++ {
+			switch out[i] {
+			case '\'', '"':
+				q := out[i]
+				for i++; i < len(out) && out[i] != q; i++ {
+					if out[i] == '\\' {
+						i++
+					}
+				}
+			case '/':
+				if i+1 < len(out) && out[i+1] == '/' {
+					for i < len(out) && out[i] != '\n' {
+						i++
+					}
+				}
+			case 'e':
+				if out[i:i+4] == "else" && (i == 0 || !jsIdentOK(out[i-1:i]) || out[i-1] >= '0' && out[i-1] <= '9') && (i+4 == len(out) || !jsIdentOK("a"+out[i+4:i+5])) {
+					k := i - 1
+					for k >= 0 && (out[k] == ' ' || out[k] == '\n' || out[k] == '\t') {
+						k--
+					}
+					verifAssert(k >= 0 && out[k] == '}', "an else without a preceding if branch in generated JavaScript")
+				}
+			}
+		}
 		// a '.' that follows an identifier character, ')' or ']' is a property access and must be
 		// followed by an identifier start (outside string literals and comments)
 		for i := 0; i+1 < len(out); i++ {
